@@ -28,6 +28,8 @@ REF_SIGNATURES = {
                         'frequency_to_use', 'degree_l', 'G_to_use', 't_span', 'y0_ptr', 'atols_ptr', 'rtols_ptr', 'rk_method', 'max_step', 'max_num_steps', 'expected_size', 'max_ram_MB', 'limit_solution_to_radius'],
     'cf_find_starting_conditions': ['layer_type', 'is_static', 'is_incompressible', 'use_kamata', 'frequency', 'radius', 'density', 'bulk_modulus', 'shear_modulus', 'degree_l', 'G_to_use', 'num_ys',
                                     'starting_conditions_ptr', 'run_y_checks'],
+    'cf_apply_surface_bc': ['constant_vector_ptr', 'bc_solution_info_ptr', 'bc_pointer', 'uppermost_y_per_solution_ptr', 'surface_gravity', 'G_to_use', 'num_sols', 'max_num_y', 'ytype_i', 'layer_type',
+                            'layer_is_static', 'layer_is_incomp'],
     'cf_radial_solver': ['total_slices', 'radius_array_ptr', 'density_array_ptr', 'gravity_array_ptr', 'bulk_modulus_array_ptr', 'complex_shear_modulus_array_ptr', 'frequency', 'planet_bulk_density',
                          'num_layers', 'layer_types_ptr', 'is_static_by_layer_ptr', 'is_incompressible_by_layer_ptr', 'upper_radius_by_layer_ptr', 'degree_l', 'solve_for', 'use_kamata',
                          'integration_method', 'integration_rtol', 'integration_atol', 'scale_rtols_by_layer_type', 'max_num_steps', 'expected_size', 'max_ram_MB', 'max_step',
@@ -153,6 +155,12 @@ def run_solver(repo, kinds, solve_for=('tidal',), nondimensionalize=False, slice
             names = [a_.arg for a_ in fn_.node.args.args]
             bound = dict(zip(names, args)); bound.update(kwargs)
             state.setdefault('redim_calls', []).append(bound)
+            return NotImplemented
+        if base == 'cf_apply_surface_bc' and isinstance(fn_, FuncRef):
+            names = [a_.arg for a_ in fn_.node.args.args]
+            bound = dict(zip(names, args)); bound.update(kwargs)
+            bound['__gravity_top_now__'] = arrs['gravity'].store.get(total - 1)          # the surface gravity as the (possibly rescaled) caller array holds it at this moment
+            state.setdefault('surface_calls', []).append((names, bound))
             return NotImplemented
         if base == 'cf_build_solver':
             return make_solver(args)
@@ -294,6 +302,6 @@ def run_solver(repo, kinds, solve_for=('tidal',), nondimensionalize=False, slice
     r.oob = sorted({(name, ext, k, kind_, getattr(node, 'lineno', None) or 0) for name, ext, k, kind_, node in I.OOB_LOG}, key=lambda t_: tuple(str(x) for x in t_))
     so = state['solution_obj']
     r.solution_obj = so
-    r.iface_calls = state.get('iface_calls', []); r.redim_calls = state.get('redim_calls', []); r.build_calls = state.get('build_calls', []); r.start_calls = state.get('start_calls', [])
+    r.iface_calls = state.get('iface_calls', []); r.redim_calls = state.get('redim_calls', []); r.build_calls = state.get('build_calls', []); r.start_calls = state.get('start_calls', []); r.surface_calls = state.get('surface_calls', [])
     r.final_arrays = {nm: [arrs[nm].store.get(i) for i in range(total)] for nm in arrs}
     return r
